@@ -20,6 +20,17 @@ claim("C14", "Proof of the journal step functions as two-state contracts taken f
 claim("C15", "Proof of BuildJournal and Trip bookkeeping: UID = decimal start instant + id suffix is the map key of every journal trip (invariant through all loops), ignored update (assigned trip, update without vehicle) changes nothing, otherwise identifiers/vehicle/counters/last-observed from the update; trips of the current feed are active, vanished trips are marked past once (Trip.markPast marks all stops), selection step = window and assigned, result sorted by UID (sort.Strings contract + per-id invariant). Termination under a ghost measure of the source.",
       COMMON_NOTE + "GtfsrtSource.Next is an interface contract (finite, no interference); fmt.Sprintf(\"%d%s\") concatenation and sort.Strings (sorted permutation) assumed; absence of duplicate UIDs relies on map-key distinctness (not machine-checked); history statements by induction.")
 
+claim("C08", "Proof that the emitted collections carry the stated order regardless of input order: parseShapes (shapes ascending by ID; points of a shape follow its rows sorted by sequence, via sort.Slice comparator contracts and per-shape step obligations), parseScheduledStopTimes (postcondition: every trip's stop times ascending by stop_sequence, through a visited-set invariant over the final per-trip sort and a storage-separation invariant), parseFrequencies/parseRoutes/parseTransfers safety-level contracts.",
+      COMMON_NOTE + "sort.Slice is assumed to produce a permutation sorted for the comparator (the comparator's own contract is verified against its closure body); stability of ties (equal sequence numbers keep file order) is not claimed; the ordering of Realtime.Trips is covered by the ParseRealtime contracts (C07).")
+claim("C10", "Proof of the csv column layer against the property's wording: OptionalColumn.Read/ReadOr return the stated default both when the column is absent and when the cell is blank (two separate postconditions), RequiredColumn records blanks; and per-row step obligations of parseScheduledStopTimes: pickup/drop-off default to \"0\" (regular), timepoint defaults to exact, a one-sided arrival/departure time is copied to the other side; same shape for the other static parsers at safety level.",
+      COMMON_NOTE + "parseGtfsTimeToDuration is an assumed function of its text (bounded stand-in, not proof); defaults of files whose parser has only a safety-level contract (routes sort order, transfers, frequencies) are not claimed here.")
+claim("C16", "Proof of the NYCT trip extension: GetTrack precedence (actual over scheduled, none when neither), isStaleUnassignedTrip exactly per the property's two conditions, the M-train platform swap (N<->S exactly at the six listed stations, every other update untouched, idempotence broken only as stated) with the aliasing precondition distinctUpdates, UpdateTrip/UpdateVehicle drop decisions, and the origin-time arithmetic lemma (hundredths of a minute to H:MM:SS).",
+      COMMON_NOTE + "proto extension accessors are assumed total functions of the message; the regexp for trip ids is axiomatised per pattern; float arithmetic in the origin-time conversion is treated as uninterpreted except for the integer lemma (a bounded stand-in enumerates 000000..599999).")
+claim("C17", "Proof of the NYCT alerts extension: the elevator-alert rewrite (every informed entity of an elevator alert gets the station stop id; ids not owned by the alert are untouched), UpdateAlert's keep/drop decision and metadata extraction, timetabled-direction table lemma, groupsOK shape of regexp captures.",
+      COMMON_NOTE + "regexp captures are axiomatised per pattern (trusted); json.Marshal assumed total.")
+claim("C19", "Proof of the directory source: NewDirectoryGtfsrtSource lists exactly the regular files in sorted order or fails; Next consumes the list front to back, returns each parsed feed at most once, skips unreadable/unparsable files without stopping, and terminates (variant: files left).",
+      COMMON_NOTE + "os.ReadDir / os.ReadFile / filepath.Join are assumed contracts (ghost file system: readable, fileContent); ParseRealtime is used through its own contract.")
+
 props=[json.loads(l) for l in open('/verif/properties.jsonl')]
 NA = {"C20": "rows and columns of the export live in two text/template files interpreted by a reflection-driven library; no contract on a Go function of this repository can express or decide them (DESIGN.md §5)"}
 checks=[]
